@@ -283,6 +283,10 @@ theorem readFixed_ok_iff (E : Ext) (f : Fits) (t : Table) :
                 simpa using this
               · rintro ⟨h1, _⟩; exact h1
 
+theorem readFixed_complete' (E : Ext) (f : Fits) (t : Table) (h : readCore E f = .ok t) (hw : DimsWF t) :
+    readFixed E f = .ok t :=
+  (readFixed_ok_iff E f t).mpr ⟨h, hw⟩
+
 /-! ## every table the repaired reader returns is well-formed -/
 
 theorem headD_rowMajor_mul (l : List Nat) (h : l ≠ []) : (rowMajor l).headD 0 * l.headD 0 = prod l := by
